@@ -619,6 +619,8 @@ impl Engine for ObjEngine {
             }
         }
         p.set("no_borrowed", no_borrowed as i64);
+        // drawn last so that the rest of the plan is what it was before this knob existed
+        p.set("ctx_via", rng.range(0, 1));
         p
     }
 
@@ -646,7 +648,17 @@ impl Engine for ObjEngine {
         let mut st = State {
             world,
             slots: (0..npool).map(|_| None).collect(),
-            ctx_handle: Some(CArc::from(arc)),
+            // half of the runs obtain their context the long way round: CArc -> CArcSome -> CArc
+            // (what a caller holding an optional handle does before handing it to a constructor)
+            ctx_handle: Some(if plan.cfg("ctx_via", 0) == 1 {
+                ctx.count("fault.context_obtained_by_conversion");
+                match <CArc<CtxPayload>>::from(arc).transpose() {
+                    Some(some) => cglue::arc::CArcSome::<CtxPayload>::transpose(some),
+                    None => return Err(Violation::new("ctx.conversion_lost", "transpose", "a CArc made from an Arc transposed to None".to_string())),
+                }
+            } else {
+                CArc::from(arc)
+            }),
             ctx_weak,
             erased_arena: Mutex::new(Vec::new()),
             twin_arena: Arc::new(Mutex::new(Vec::new())),
